@@ -806,7 +806,7 @@ def generate(repo, tmpl_path, outdir, probe=None, drop_hints=()):
                     out.append((t, o))
                 fns.append({'fn': qual, 'file': span[0], 'src_lines': [span[1], span[2]], 'gen_lines': [g0, len(out)],
                             'props': [p for p in opts.get('props', '').split(',') if p],
-                            'external_body': 'external_body' in opts, 'edits': fnotes,
+                            'external_body': 'external_body' in opts, 'edits': fnotes, 'alias': opts.get('as'),
                             'n_spec_lines': sum(1 for (t, o) in lines if o['o'] == 'i' and t.strip() and not t.strip().startswith('//'))})
                 notes.extend(fnotes)
             else:
